@@ -278,6 +278,7 @@ def _replay_other(case):
 def main():
     t = common.tier()
     chk = common.Check(PID, 'exploration')
+    chk.unexercised_whats = {'operation-failed', 'harness'}   # a failing command is not what C16 is about: reported as 'could not exercise'
     credsets = [('AKIDEXAMPLE', 'wJalrXUtnFEMI/K7MDENG+bPxRfiCYEXAMPLEKEY', 'us-east-1'),
                 ('id-with-dash_and.dot', 's3cr3t/with+chars=', 'eu-central-1')]
     cases = []
